@@ -348,7 +348,13 @@ void run_width(const Case &c, pbt::Ctx &ctx) {
 
     const jm::Node expect = prune(model);
     StringStream<Char_T> ss;
-    v.Stringify(ss, 17U);
+    // the value that is stringified may itself be a pointer-to-value (one or two hops) to the tree
+    Value<Char_T> hop1, hop2;
+    hop1.SetPointerToValue(&v);
+    hop2.SetPointerToValue(&hop1);
+    const unsigned via = e.below(5);
+    ctx.label(via == 3 ? "root-is-pointer" : via == 4 ? "root-is-pointer-to-pointer" : "root-is-container");
+    (via == 3 ? hop1 : via == 4 ? hop2 : v).Stringify(ss, 17U);
     jm::Units text = jm::units_of(ss.First(), ss.Length());
 
     // (1) parse back: equal tree
